@@ -26,10 +26,11 @@ func ZZ_C03_Switch(plan, at, gets int) {
 	hashA, timeA, dataA, gasA := node.BlockHash, node.BlockTime, node.LogData, node.TxGasUsed
 	hashB, timeB, dataB, gasB := zzNZ("nodeB.block_hash", 32), zzNZ64("nodeB.block_time"), zzNZ("nodeB.log_data", 4), zzNZ64("nodeB.tx_gas_used")
 	zzvrf.Assume(!zzvrf.BytesEq(hashA, hashB))
-	calls := 0
+	calls, curGet, switchGet := 0, 0, -1
 	ZZOnCall = func(c *Client) {
 		if calls == at {
 			node.BlockHash, node.BlockTime, node.LogData, node.TxGasUsed = hashB, timeB, dataB, gasB
+			switchGet = curGet
 		}
 		calls++
 	}
@@ -48,6 +49,7 @@ func ZZ_C03_Switch(plan, at, gets int) {
 	}
 	lastOK, lastB := false, false
 	for g := 0; g < gets; g++ {
+		curGet = g
 		blocks, err := c.Get(context.Background(), "http://node", f, 100, 1)
 		lastOK = err == nil
 		if err != nil {
@@ -74,8 +76,9 @@ func ZZ_C03_Switch(plan, at, gets int) {
 		}
 		zzvrf.Reach("accepted")
 	}
-	if gets >= 4 && at <= 4 {
-		// the cached segment expires after maxreads (2) reads: retries end with the current version
+	if switchGet >= 0 && gets-1 >= switchGet+2 {
+		// a segment cached before the switch expires after at most maxreads (2) further
+		// reads: the second Get after the one the switch fell into sees the current version
 		zzvrf.Assert(lastOK && lastB, "retries-converge-to-the-current-version")
 	}
 	zzvrf.Reach("end")
